@@ -28,12 +28,76 @@ func derefOf(v, x ssa.Value) bool {
 
 // iterSource: which call produced the iterator a method is invoked on.
 func iterSource(recv ssa.Value) *ssa.Call {
-	v := ssau.Strip(recv)
+	v := cellValue(ssau.Strip(recv))
 	if u, ok := v.(*ssa.UnOp); ok && u.Op == token.MUL {
-		v = ssau.Strip(u.X)
+		v = cellValue(ssau.Strip(u.X))
 	}
 	c, _ := v.(*ssa.Call)
 	return c
+}
+
+// cellValue reads through a variable that lives in a memory cell because a closure
+// captures it (DESIGN Appendix A): a load of an Alloc that has exactly one Store is the
+// stored value; inside the closure, a load of the FreeVar bound to such a cell likewise.
+func cellValue(v ssa.Value) ssa.Value {
+	for i := 0; i < 4; i++ {
+		u, ok := v.(*ssa.UnOp)
+		if !ok || u.Op != token.MUL {
+			return v
+		}
+		var cell ssa.Value = u.X
+		if fv, isFV := cell.(*ssa.FreeVar); isFV {
+			cell = freeVarBinding(fv)
+			if cell == nil {
+				return v
+			}
+		}
+		a, isA := cell.(*ssa.Alloc)
+		if !isA {
+			return v
+		}
+		var stored ssa.Value
+		n := 0
+		for _, r := range ssau.Refs(a) {
+			if st, ok := r.(*ssa.Store); ok && st.Addr == ssa.Value(a) {
+				n++
+				stored = st.Val
+			}
+		}
+		if n != 1 {
+			return v
+		}
+		v = ssau.Strip(stored)
+	}
+	return v
+}
+
+// freeVarBinding: the value bound to a closure's free variable where the closure is made
+// (nil unless the anonymous function is instantiated exactly once).
+func freeVarBinding(fv *ssa.FreeVar) ssa.Value {
+	fn := fv.Parent()
+	parent := fn.Parent()
+	if parent == nil {
+		return nil
+	}
+	idx := -1
+	for i, f := range fn.FreeVars {
+		if f == fv {
+			idx = i
+		}
+	}
+	var bound ssa.Value
+	n := 0
+	ssau.AllInstrs(parent, func(in ssa.Instruction) {
+		if mc, ok := in.(*ssa.MakeClosure); ok && mc.Fn == ssa.Value(fn) && idx >= 0 && idx < len(mc.Bindings) {
+			n++
+			bound = mc.Bindings[idx]
+		}
+	})
+	if n != 1 {
+		return nil
+	}
+	return bound
 }
 
 // IDX1 decides DESIGN §3.2 IDX-1 on every function of formats/ply: the argument of
@@ -43,138 +107,169 @@ func iterSource(recv ssa.Value) *ssa.Call {
 func IDX1(e *Env) {
 	const rule = "IDX-1"
 	sites := 0
-	for _, fn := range e.All {
-		// 1. index iterators and their Len() calls
-		idxIters := map[*ssa.Call]bool{}
-		ssau.AllInstrs(fn, func(in ssa.Instruction) {
-			if c, ok := in.(*ssa.Call); ok {
-				if _, callee := CallTo(c); IsMeshMethod(callee, "Indices") {
-					idxIters[c] = true
+	// parameters of in-package helpers / function literals that receive an index position
+	// from a caller (one call level): filled by a first pass, used by the second
+	pParams := map[ssa.Value]bool{}
+	for pass := 0; pass < 2; pass++ {
+		for _, fn := range e.All {
+			// 1. index iterators and their Len() calls
+			idxIters := map[*ssa.Call]bool{}
+			ssau.AllInstrs(fn, func(in ssa.Instruction) {
+				if c, ok := in.(*ssa.Call); ok {
+					if _, callee := CallTo(c); IsMeshMethod(callee, "Indices") {
+						idxIters[c] = true
+					}
 				}
-			}
-		})
-		lenOfIdx := map[ssa.Value]bool{}
-		ssau.AllInstrs(fn, func(in ssa.Instruction) {
-			c, ok := in.(*ssa.Call)
-			if !ok {
-				return
-			}
-			cc, callee := CallTo(c)
-			if IsIterMethod(callee, "Len") {
-				if src := iterSource(RecvArg(cc)); src != nil && idxIters[src] {
-					lenOfIdx[c] = true
+			})
+			lenOfIdx := map[ssa.Value]bool{}
+			ssau.AllInstrs(fn, func(in ssa.Instruction) {
+				c, ok := in.(*ssa.Call)
+				if !ok {
+					return
 				}
-			}
-		})
-		// 2. P variables: header phis compared against an index-array length
-		pvars := map[*ssa.Phi]bool{}
-		isPhi := func(v ssa.Value) bool { _, ok := v.(*ssa.Phi); return ok }
-		ssau.AllInstrs(fn, func(in ssa.Instruction) {
-			b, ok := in.(*ssa.BinOp)
-			if !ok || !isCmp(b.Op) {
-				return
-			}
-			for _, pair := range [][2]ssa.Value{{b.X, b.Y}, {b.Y, b.X}} {
-				bound := SliceFind(pair[1], func(v ssa.Value) bool { return lenOfIdx[v] })
-				if len(bound) == 0 {
-					continue
+				cc, callee := CallTo(c)
+				if IsIterMethod(callee, "Len") {
+					if src := iterSource(RecvArg(cc)); src != nil && idxIters[src] {
+						lenOfIdx[c] = true
+					}
 				}
-				l := LinEval(pair[0], func(v ssa.Value) (Lin, bool) {
-					if isPhi(v) {
-						return linSym(v), true
+			})
+			// 2. P variables: header phis compared against an index-array length
+			pvars := map[*ssa.Phi]bool{}
+			isPhi := func(v ssa.Value) bool { _, ok := v.(*ssa.Phi); return ok }
+			ssau.AllInstrs(fn, func(in ssa.Instruction) {
+				b, ok := in.(*ssa.BinOp)
+				if !ok || !isCmp(b.Op) {
+					return
+				}
+				for _, pair := range [][2]ssa.Value{{b.X, b.Y}, {b.Y, b.X}} {
+					bound := SliceFind(pair[1], func(v ssa.Value) bool { return lenOfIdx[v] })
+					if len(bound) == 0 {
+						continue
+					}
+					l := LinEval(pair[0], func(v ssa.Value) (Lin, bool) {
+						if isPhi(v) {
+							return linSym(v), true
+						}
+						return Lin{}, false
+					})
+					if l.Bad || len(l.Coef) != 1 {
+						continue
+					}
+					for s := range l.Coef {
+						phi := s.(*ssa.Phi)
+						if e.CounterOf(phi) != nil {
+							pvars[phi] = true
+						}
+					}
+				}
+			})
+			isP := func(v ssa.Value) (bool, string) {
+				l := LinEval(v, func(x ssa.Value) (Lin, bool) {
+					switch x.(type) {
+					case *ssa.Phi, *ssa.Call, *ssa.Parameter:
+						return linSym(x), true
 					}
 					return Lin{}, false
 				})
 				if l.Bad || len(l.Coef) != 1 {
-					continue
+					return false, ""
 				}
 				for s := range l.Coef {
-					phi := s.(*ssa.Phi)
-					if e.CounterOf(phi) != nil {
-						pvars[phi] = true
+					if phi, ok := s.(*ssa.Phi); ok && pvars[phi] {
+						return true, l.String()
+					}
+					if pParams[s] {
+						return true, l.String() + " (index position passed in by the caller)"
 					}
 				}
-			}
-		})
-		isP := func(v ssa.Value) (bool, string) {
-			l := LinEval(v, func(x ssa.Value) (Lin, bool) {
-				switch x.(type) {
-				case *ssa.Phi, *ssa.Call, *ssa.Parameter:
-					return linSym(x), true
-				}
-				return Lin{}, false
-			})
-			if l.Bad || len(l.Coef) != 1 {
 				return false, ""
 			}
-			for s := range l.Coef {
-				if phi, ok := s.(*ssa.Phi); ok && pvars[phi] {
-					return true, l.String()
-				}
-			}
-			return false, ""
-		}
-		// 3. sinks: At on attribute iterators
-		type group struct {
-			bad, ok []string
-			pos     token.Pos
-			badPos  token.Pos
-		}
-		groups := map[string]*group{}
-		ssau.AllInstrs(fn, func(in ssa.Instruction) {
-			c, isCall := in.(*ssa.Call)
-			if !isCall {
-				return
-			}
-			cc, callee := CallTo(c)
-			if !IsIterMethod(callee, "At") {
-				return
-			}
-			src := iterSource(RecvArg(cc))
-			if src == nil {
-				return
-			}
-			_, srcCallee := CallTo(src)
-			if srcCallee == nil || !ssau.IsMethod(srcCallee, ModelingPath, "Mesh", srcCallee.Name()) || !reFloatAttr.MatchString(srcCallee.Name()) {
-				return
-			}
-			g := groups[srcCallee.Name()]
-			if g == nil {
-				g = &group{pos: c.Pos()}
-				groups[srcCallee.Name()] = g
-			}
-			arg := Arg(cc, callee, 0)
-			if p, form := isP(arg); p {
-				g.bad = append(g.bad, fmt.Sprintf("%s: subscript %s is a position in the index array (bounded by Indices().Len())", e.IPos(c), form))
-				if g.badPos == token.NoPos {
-					g.badPos = c.Pos()
-				}
-			} else {
-				kind := "not an index position"
-				if len(SliceFind(arg, func(v ssa.Value) bool {
-					if cc2, cal := CallTo(v); cal != nil && IsIterMethod(cal, "At") {
-						if s := iterSource(RecvArg(cc2)); s != nil && idxIters[s] {
-							return true
+			if pass == 0 {
+				ssau.AllInstrs(fn, func(in ssa.Instruction) {
+					cl, ok := in.(*ssa.Call)
+					if !ok {
+						return
+					}
+					g := cl.Common().StaticCallee()
+					if g == nil || g.Blocks == nil || cl.Common().IsInvoke() {
+						return
+					}
+					if g.Pkg == nil || g.Pkg.Pkg.Path() != PlyPath {
+						return
+					}
+					for i, a := range cl.Common().Args {
+						if i < len(g.Params) {
+							if p, _ := isP(a); p {
+								pParams[g.Params[i]] = true
+							}
 						}
 					}
-					return false
-				})) > 0 {
-					kind = "vertex id read from the index array"
-				}
-				g.ok = append(g.ok, fmt.Sprintf("%s: %s", e.IPos(c), kind))
+				})
+				continue
 			}
-		})
-		names := SortedKeys(groups)
-		for _, n := range names {
-			g := groups[n]
-			sites++
-			construct := e.Name(fn) + "→" + n + ".At"
-			if len(g.bad) > 0 {
-				e.Violate(fn, rule, construct, g.badPos,
-					"attribute fetched by index POSITION instead of by VERTEX ID: on a welded mesh (indices ≠ 0..n-1) the wrong corner value is written, or At panics out of range; fetch with At(indices.At(p))",
-					append(g.bad, g.ok...)...)
-			} else {
-				e.Hold(fn, rule, construct, g.pos, g.ok...)
+			// 3. sinks: At on attribute iterators
+			type group struct {
+				bad, ok []string
+				pos     token.Pos
+				badPos  token.Pos
+			}
+			groups := map[string]*group{}
+			ssau.AllInstrs(fn, func(in ssa.Instruction) {
+				c, isCall := in.(*ssa.Call)
+				if !isCall {
+					return
+				}
+				cc, callee := CallTo(c)
+				if !IsIterMethod(callee, "At") {
+					return
+				}
+				src := iterSource(RecvArg(cc))
+				if src == nil {
+					return
+				}
+				_, srcCallee := CallTo(src)
+				if srcCallee == nil || !ssau.IsMethod(srcCallee, ModelingPath, "Mesh", srcCallee.Name()) || !reFloatAttr.MatchString(srcCallee.Name()) {
+					return
+				}
+				g := groups[srcCallee.Name()]
+				if g == nil {
+					g = &group{pos: c.Pos()}
+					groups[srcCallee.Name()] = g
+				}
+				arg := Arg(cc, callee, 0)
+				if p, form := isP(arg); p {
+					g.bad = append(g.bad, fmt.Sprintf("%s: subscript %s is a position in the index array (bounded by Indices().Len())", e.IPos(c), form))
+					if g.badPos == token.NoPos {
+						g.badPos = c.Pos()
+					}
+				} else {
+					kind := "not an index position"
+					if len(SliceFind(arg, func(v ssa.Value) bool {
+						if cc2, cal := CallTo(v); cal != nil && IsIterMethod(cal, "At") {
+							if s := iterSource(RecvArg(cc2)); s != nil && idxIters[s] {
+								return true
+							}
+						}
+						return false
+					})) > 0 {
+						kind = "vertex id read from the index array"
+					}
+					g.ok = append(g.ok, fmt.Sprintf("%s: %s", e.IPos(c), kind))
+				}
+			})
+			names := SortedKeys(groups)
+			for _, n := range names {
+				g := groups[n]
+				sites++
+				construct := e.Name(fn) + "→" + n + ".At"
+				if len(g.bad) > 0 {
+					e.Violate(fn, rule, construct, g.badPos,
+						"attribute fetched by index POSITION instead of by VERTEX ID: on a welded mesh (indices ≠ 0..n-1) the wrong corner value is written, or At panics out of range; fetch with At(indices.At(p))",
+						append(g.bad, g.ok...)...)
+				} else {
+					e.Hold(fn, rule, construct, g.pos, g.ok...)
+				}
 			}
 		}
 	}
